@@ -139,6 +139,8 @@ def _run_chunk(k):
             else:
                 if tb:
                     where = "%s:%s" % (os.path.basename(tb[-1].filename), tb[-1].name)
+            part.state(("aborted-case", i), nontrivial=False)   # the case was executed up to the exception: it is an explored state
+            part.outcome("case-aborted-by-unexpected-exception")
             part.violation("%s/unexpected-exception/%s@%s" % (prop, type(e).__name__, where),
                            "case raised an exception no oracle clause anticipates: %s: %s" % (type(e).__name__, str(e)[:300]),
                            items[i], observed="".join(traceback.format_exception(type(e), e, e.__traceback__))[-1500:])
@@ -348,7 +350,16 @@ class Run(object):
         evpath = os.path.join(VERIF, "evidence", "%s.json" % self.prop)
         with open(evpath, "w") as f:
             json.dump(ev, f, indent=1, sort_keys=True)
-        validate_evidence(evpath)
+        try:
+            validate_evidence(evpath)
+        except Exception as e:
+            # a degenerate run must still report what it found
+            for line in lines:
+                print(line)
+            print("HARNESS: evidence for %s does not validate: %s" % (self.prop, str(e)[:300]))
+            if rc:
+                return rc
+            raise
         print("%s tier=%s seed=%s states=%d transitions=%d executions=%d distinct_nontrivial=%d outcomes=%d known=%d new=%d wall=%.1fs" % (
             self.prop, self.tier, self.seed, cov["states"], cov["transitions"], part.evaluations, cov["distinct_nontrivial"],
             len(part.outcomes), len(seen_known), len(new), wall))
